@@ -24,12 +24,25 @@
   (Model/BaseClientHeap.lean) — every call leaves every caller-owned dict as it was, so sequences and
   interleavings of calls that SHARE argument objects send, per call, the request of the call run alone.
 
+  The `variables` argument is a GRAPH of list/dict objects (one nested dict referenced from two places; the
+  same objects handed to a second call) and Upload objects have an identity apart from their attributes:
+  section 3c states the property's "calls do not affect each other" and "each distinct Upload is sent
+  once" on the object-level model `executeO` (Model/BaseClientObjects.lean: `_convert_value`,
+  `separate_files` statement by statement on a store of container objects, any aliasing, any depth) —
+  every object that existed before a call holds afterwards what it held, so retries / sequences /
+  interleavings on shared objects send the stand-alone requests — and section 3d ties the de-duplication
+  `obj in files_list` to what `==` means for `class Upload` of the working tree
+  (Generated/UploadTables.lean): identity, whatever the attributes; under ANY `==` that equates two
+  different Upload objects one of them is not sent.
+
   Two findings make the property false as written (`C11_full_false`); outside their triggers it is
   proved (`C11_partial`):
     C11-F1 `trigContentTypeCase`        a caller Content-Type header in another spelling does not win
     C11-F2 `trigUploadInModelBelowDict` an Upload inside a model below a raw dict is not extracted
 -/
 import AriadneModel.Proofs.BaseClientHeap
+import AriadneModel.Proofs.BaseClientObjects
+import AriadneModel.Generated.UploadTables
 
 set_option linter.unusedSimpArgs false
 set_option linter.unusedVariables false
@@ -621,6 +634,361 @@ example : ((runSeqH sampleHeap sampleSteps).2.map fun r => r.map fun r => (isJso
     [some (true, false), some (false, true), some (true, false)] := by decide
 example : (runSeqH sampleHeap sampleSteps).1.hdrs = sampleHeap.hdrs := by decide
 
+/-! ## 3c. the caller's container objects: nested dicts and lists by reference, any aliasing -/
+
+/-- `separate_files` on a store of list/dict objects, for EVERY store, every value (a reference into it
+    or an immediate), every `==` of Upload objects and every nesting depth `f` the value can be read at:
+    it returns (as new objects) the tree the value-level function returns on the tree the value denotes,
+    with the same `(files_list, files_map)`, and every object that existed before the call holds what it
+    held — whatever is referenced from wherever. -/
+theorem separate_files_writes_only_own_objects (eqv : Nat → Nat → Bool) (f : Nat) (path : String) (v : Val)
+    (s : OStore) (es : List Entry) (pv : PV) (h : derefV s f v = some pv) :
+    ∃ r s', sepS eqv f path v (s, es) = some (r, (s', (sepG eqv path pv es).2)) ∧
+      s'.take s.length = s ∧ (∀ a, a < s.length → s'[a]? = s[a]?) ∧
+      derefV s' f r = some (sepG eqv path pv es).1 := by
+  obtain ⟨r, s', h1, h2, h3, h4⟩ := sepS_spec eqv f path v s es pv h
+  exact ⟨r, s', h1, take_of_keeps h2 h3, h3, h4 s' (fun _ _ _ => rfl)⟩
+
+/-- `_convert_value` on objects: lists are rebuilt, models dumped, a dict object is returned as it is
+    (so what `separate_files` walks next are the caller's own dicts) — and nothing that existed is written. -/
+theorem convert_value_writes_nothing (f : Nat) (v : Val) (s : OStore) (pv : PV) (h : derefV s f v = some pv) :
+    ∃ r s', convertValueS f v s = some (r, s') ∧ s'.take s.length = s ∧ derefV s' f r = some (convertValue pv) := by
+  obtain ⟨r, s', h1, h2, h3, h4⟩ := convertValueS_spec f v s pv h
+  exact ⟨r, s', h1, take_of_keeps h2 h3, h4⟩
+
+/-- a dict object goes through `_convert_value` as the same object, and nothing is allocated -/
+example : (convertValueS 3 (.ref 0) [.dict [("file", .imm (.upload 0))]]).map (fun r => (match r.1 with | .ref a => some a | _ => none, r.2.length)) =
+    some (some 0, 1) := by decide
+
+/-- `_process_variables` on objects = `_process_variables` on the tree the caller's dict denotes, and the
+    caller's objects are afterwards what they were. -/
+theorem process_variables_frame (eqv : Nat → Nat → Bool) (fuel : Nat) (s : OStore) (a : Nat) (kvs : List (String × PV))
+    (h : derefV s (fuel + 1) (.ref a) = some (.dict kvs)) :
+    ∃ s', processVariablesS eqv fuel s (some a) =
+        some ((processVariablesG eqv (some kvs)).1, s', (processVariablesG eqv (some kvs)).2) ∧
+      s'.take s.length = s := by
+  obtain ⟨s', h1, h2, h3⟩ := processVariablesS_some eqv fuel s a kvs h
+  exact ⟨s', h1, take_of_keeps h2 h3⟩
+
+/-- `execute_objects_frame`: `execute` on objects.  Whatever list/dict/Upload/headers objects the heap
+    holds, however they reference each other, and whichever of them the call names: the client object and
+    EVERY object of the heap are afterwards what they were, what is sent is the request of the value-level
+    call on the trees the objects denote at call time, and the file parts are made of the attributes of
+    the Upload objects themselves. -/
+theorem execute_objects_frame (fuel : Nat) (cl : Client) (h : OHeap) (c : HCall) (call : Call)
+    (hc : h.call? fuel c = some call) :
+    executeO fuel cl h c = .ok cl h (req cl call) (filesOfCall h.ups cl call) := executeO_eq fuel cl h c call hc
+
+/-- …and an argument that names no object (or a structure deeper than the fuel: in Python, beyond the
+    recursion limit) is the only way to get no outcome. -/
+theorem executeO_illFormed_iff (fuel : Nat) (cl : Client) (h : OHeap) (c : HCall) :
+    (∃ cl' h' r fs, executeO fuel cl h c = .ok cl' h' r fs) ↔ (h.call? fuel c).isSome = true := by
+  cases hc : h.call? fuel c with
+  | none => simp [executeO_illFormed fuel cl h c hc]
+  | some call => simp [executeO_eq fuel cl h c call hc]
+
+/-- `sequence_shared_objects`: any number of calls one after the other (a retry with the same `variables`,
+    the same nested dict under two variables, the same objects through another of the four clients …), all
+    drawing their arguments from ONE heap of objects: the heap at the end is the heap at the start, and the
+    i-th call sent exactly the request it sends when it is the only call ever made with these objects. -/
+theorem sequence_shared_objects (fuel : Nat) (h : OHeap) (steps : List (Client × HCall)) :
+    (runSeqO fuel h steps).1 = h ∧
+    (runSeqO fuel h steps).2.length = steps.length ∧
+    ∀ (i : Nat) cl c, steps[i]? = some (cl, c) →
+      (runSeqO fuel h steps).2[i]? = some ((h.call? fuel c).map (req cl)) := by
+  rw [runSeqO_eq]
+  have hmap : ∀ steps : List (Client × HCall),
+      derefStepsO fuel h steps = steps.map (fun st => (h.call? fuel st.2).map (req st.1)) := by
+    intro steps
+    induction steps with
+    | nil => rfl
+    | cons st rest ih => obtain ⟨cl, c⟩ := st; simp only [derefStepsO, ih, List.map_cons]; rfl
+  refine ⟨rfl, by simp [hmap], ?_⟩
+  intro i cl c hi
+  simp [hmap, List.getElem?_map, hi]
+
+structure WorldO where
+  client : Client
+  heap : OHeap                 -- the caller's objects, shared by all tasks
+  tasks : List PhaseH
+  wire : List Request
+
+/-- one scheduler step on objects: preparing a request runs `executeO` on the CURRENT client and heap -/
+def stepO (fuel : Nat) (w : WorldO) (i : Nat) : WorldO :=
+  match w.tasks[i]? with
+  | some (.todo c) =>
+    match executeO fuel w.client w.heap c with
+    | .ok cl' h' r _ => { client := cl', heap := h', tasks := w.tasks.set i (.prepared r), wire := w.wire }
+    | .illFormed => w
+  | some (.prepared r) => { w with tasks := w.tasks.set i (.done r), wire := w.wire ++ [r] }
+  | _ => w
+
+def runScheduleO (fuel : Nat) (w : WorldO) (sched : List Nat) : WorldO := sched.foldl (stepO fuel) w
+
+def startO (cl : Client) (h : OHeap) (calls : List HCall) : WorldO :=
+  { client := cl, heap := h, tasks := calls.map .todo, wire := [] }
+
+def SentAloneO (fuel : Nat) (cl : Client) (h : OHeap) (c : HCall) (r : Request) : Prop :=
+  ∃ call, h.call? fuel c = some call ∧ r = req cl call
+
+def PhaseOkO (fuel : Nat) (cl : Client) (h : OHeap) (c : HCall) : PhaseH → Prop
+  | .todo c' => c' = c
+  | .prepared r => SentAloneO fuel cl h c r
+  | .done r => SentAloneO fuel cl h c r
+
+def InvO (fuel : Nat) (cl : Client) (h : OHeap) (calls : List HCall) (w : WorldO) : Prop :=
+  w.client = cl ∧ w.heap = h ∧ w.tasks.length = calls.length ∧
+  (∀ (i : Nat) c ph, calls[i]? = some c → w.tasks[i]? = some ph → PhaseOkO fuel cl h c ph) ∧
+  (∀ r ∈ w.wire, ∃ c ∈ calls, SentAloneO fuel cl h c r)
+
+theorem invO_start (fuel : Nat) (cl : Client) (h : OHeap) (calls : List HCall) : InvO fuel cl h calls (startO cl h calls) := by
+  refine ⟨rfl, rfl, by simp [startO], ?_, by simp [startO]⟩
+  intro i c ph hc hp
+  simp only [startO, List.getElem?_map, hc, Option.map_some, Option.some.injEq] at hp
+  subst hp; rfl
+
+theorem invO_step (fuel : Nat) (cl : Client) (h : OHeap) (calls : List HCall) (w : WorldO) (i : Nat)
+    (hinv : InvO fuel cl h calls w) : InvO fuel cl h calls (stepO fuel w i) := by
+  obtain ⟨h1, hh, h2, h3, h4⟩ := hinv
+  unfold stepO
+  cases hp : w.tasks[i]? with
+  | none => exact ⟨h1, hh, h2, h3, h4⟩
+  | some ph =>
+    have hi : i < calls.length := by
+      have := (List.getElem?_eq_some_iff.mp hp).1; omega
+    have hc : calls[i]? = some calls[i] := List.getElem?_eq_getElem hi
+    have hok := h3 i calls[i] ph hc hp
+    cases ph with
+    | done r => exact ⟨h1, hh, h2, h3, h4⟩
+    | todo c' =>
+      simp only [PhaseOkO] at hok
+      subst hok
+      cases hcall : h.call? fuel calls[i] with
+      | none =>
+        simp only [h1, hh, executeO_illFormed fuel cl h _ hcall]
+        exact ⟨h1, hh, h2, h3, h4⟩
+      | some call =>
+        simp only [h1, hh, executeO_eq fuel cl h _ call hcall]
+        refine ⟨rfl, rfl, by simp [h2], ?_, h4⟩
+        intro j c ph hcj hpj
+        by_cases hij : i = j
+        · subst hij
+          have hlt : i < w.tasks.length := by omega
+          simp only [List.getElem?_set_self hlt, Option.some.injEq] at hpj
+          subst hpj
+          rw [hc] at hcj; cases hcj
+          exact ⟨call, hcall, rfl⟩
+        · simp only [List.getElem?_set_ne hij] at hpj
+          exact h3 j c ph hcj hpj
+    | prepared r =>
+      simp only [PhaseOkO] at hok
+      refine ⟨h1, hh, by simp [h2], ?_, ?_⟩
+      · intro j c ph hcj hpj
+        by_cases hij : i = j
+        · subst hij
+          have hlt : i < w.tasks.length := by omega
+          simp only [List.getElem?_set_self hlt, Option.some.injEq] at hpj
+          subst hpj
+          rw [hc] at hcj; cases hcj
+          simpa [PhaseOkO] using hok
+        · simp only [List.getElem?_set_ne hij] at hpj
+          exact h3 j c ph hcj hpj
+      · intro r' hr'
+        simp only [List.mem_append, List.mem_singleton] at hr'
+        rcases hr' with hr' | hr'
+        · exact h4 r' hr'
+        · exact ⟨calls[i], List.getElem_mem hi, hr' ▸ hok⟩
+
+/-- `interleave_commutes_shared_objects`: for EVERY schedule of the steps of any number of concurrent calls
+    on one client whose arguments are objects of one heap (nested containers aliased in any pattern, the
+    same `variables` given to several calls in flight) — the client object and every object of the heap are
+    unchanged, each call that got as far as preparing or sending prepared/sent exactly the request it sends
+    when run alone on the untouched objects, and the transport saw nothing else. -/
+theorem interleave_commutes_shared_objects (fuel : Nat) (cl : Client) (h : OHeap) (calls : List HCall) (sched : List Nat) :
+    let w := runScheduleO fuel (startO cl h calls) sched
+    w.client = cl ∧ w.heap = h ∧
+    (∀ (i : Nat) c r, calls[i]? = some c →
+      (w.tasks[i]? = some (PhaseH.done r) ∨ w.tasks[i]? = some (PhaseH.prepared r)) → SentAloneO fuel cl h c r) ∧
+    (∀ r ∈ w.wire, ∃ c ∈ calls, SentAloneO fuel cl h c r) := by
+  have hinv : ∀ (sched : List Nat) (w : WorldO), InvO fuel cl h calls w → InvO fuel cl h calls (runScheduleO fuel w sched) := by
+    intro sched
+    induction sched with
+    | nil => intro w hw; exact hw
+    | cons i rest ih => intro w hw; exact ih (stepO fuel w i) (invO_step fuel cl h calls w i hw)
+  obtain ⟨h1, hh, _, h3, h4⟩ := hinv sched _ (invO_start fuel cl h calls)
+  refine ⟨h1, hh, ?_, h4⟩
+  intro i c r hc hp
+  rcases hp with hp | hp
+  · simpa [PhaseOkO] using h3 i c _ hc hp
+  · simpa [PhaseOkO] using h3 i c _ hc hp
+
+/-- non-vacuity, and the two shapes the frame is about.  `retryHeap`: `variables = {"input": D1}`,
+    `D1 = {"title": "hello", "attachment": D2}`, `D2 = {"file": Upload#0, "tags": ["a"]}` — the Upload sits in
+    the caller's own nested dict — sent twice.  `aliasHeap`: `shared = {"file": Upload#0, "caption": …}`
+    referenced as `variables["input"]["primary"]` and inside the list `variables["input"]["copies"]`. -/
+def retryHeap : OHeap :=
+  { hdrs := [],
+    objs := [ .dict [("input", .ref 1)],
+              .dict [("title", .imm (.str "hello")), ("attachment", .ref 2)],
+              .dict [("file", .imm (.upload 0)), ("tags", .ref 3)],
+              .list [.imm (.str "a")] ],
+    ups := [⟨"notes.txt", "text/plain", 0⟩] }
+
+def aliasHeap : OHeap :=
+  { hdrs := [],
+    objs := [ .dict [("input", .ref 1)],
+              .dict [("primary", .ref 2), ("copies", .ref 3)],
+              .dict [("file", .imm (.upload 0)), ("caption", .imm (.str "same attachment"))],
+              .list [.ref 2] ],
+    ups := [⟨"notes.txt", "text/plain", 0⟩] }
+
+def sendStep : Client × HCall :=
+  ({ kind := .sync, url := "http://verif.test/graphql", tracer := false },
+   { query := "mutation Send { send }", opName := some "Send", variables := some 0, headers := none, kwargs := [] })
+
+/-- the paths `map` lists, per file -/
+def mapPaths : Option Request → List (String × List String)
+  | some (.multipart _ _ (.obj kvs) _ _ _) =>
+    kvs.map fun kv => (kv.1, match kv.2 with | .arr xs => xs.map (fun x => match x with | .str p => p | _ => "?") | _ => [])
+  | _ => []
+
+/-- where the objects of a store hold an Upload: (address, key or index, Upload) -/
+def uploadSlots (s : OStore) : List (Nat × String × Nat) :=
+  (s.zipIdx.map fun (o, a) =>
+    match o with
+    | .dict kvs => kvs.filterMap fun kv => match kv.2 with | .imm (.upload u) => some (a, kv.1, u) | _ => none
+    | .list xs => xs.zipIdx.filterMap fun (x, i) => match x with | .imm (.upload u) => some (a, toString i, u) | _ => none).flatten
+
+example : ((runSeqO 4 retryHeap [sendStep, sendStep]).2.map fun r => r.map isMultipart) = [some true, some true] := by decide
+example : uploadSlots (runSeqO 4 retryHeap [sendStep, sendStep]).1.objs = [(2, "file", 0)] := by decide
+example : ((runSeqO 4 aliasHeap [sendStep]).2.map mapPaths) =
+    [[("0", ["variables.input.primary.file", "variables.input.copies.0.file"])]] := by decide
+
+/-- The frame theorems are about the code, not about the shape of the model: `separate_files` rewritten
+    to null the files where they are (`obj[index] = …`, `obj[key] = …`, `return obj` — same store, same
+    vocabulary) overwrites the caller's nested dict … -/
+theorem inplace_separate_files_breaks_frame :
+    ∃ (h : OHeap) (st : Client × HCall), (runSeqInPlaceO 4 h [st]).1.objs ≠ h.objs ∧ (runSeqO 4 h [st]).1.objs = h.objs := by
+  refine ⟨retryHeap, sendStep, ?_, (sequence_shared_objects 4 retryHeap [sendStep]).1 ▸ rfl⟩
+  intro e
+  have : uploadSlots (runSeqInPlaceO 4 retryHeap [sendStep]).1.objs = uploadSlots retryHeap.objs := by rw [e]
+  revert this
+  decide
+
+/-- … so the retry finds no Upload and goes out as JSON … -/
+theorem inplace_separate_files_breaks_retry :
+    ∃ (h : OHeap) (st : Client × HCall),
+      ((runSeqInPlaceO 4 h [st, st]).2.map fun r => r.map isMultipart) = [some true, some false] ∧
+      ((runSeqO 4 h [st, st]).2.map fun r => r.map isMultipart) = [some true, some true] :=
+  ⟨retryHeap, sendStep, by decide, by decide⟩
+
+/-- … and a dict referenced from two places is already nulled when it is reached the second time: `map`
+    lists only the first path. -/
+theorem inplace_separate_files_loses_aliased_path :
+    ∃ (h : OHeap) (st : Client × HCall),
+      ((runSeqInPlaceO 4 h [st]).2.map mapPaths) = [[("0", ["variables.input.primary.file"])]] ∧
+      ((runSeqO 4 h [st]).2.map mapPaths) =
+        [[("0", ["variables.input.primary.file", "variables.input.copies.0.file"])]] :=
+  ⟨aliasHeap, sendStep, by decide, by decide⟩
+
+/-! ## 3d. `obj in files_list`: what `==` means for Upload objects -/
+
+/-- `class Upload` of the working tree: `Upload.__eq__ is object.__eq__` (Generated/UploadTables.lean,
+    re-extracted from the imported module on every run — whatever the class inherits from or is decorated
+    with; the names its body binds are listed there as well), so `x is obj or x == obj` is identity —
+    `uploadEq`, the comparison `executeO` runs with. -/
+theorem upload_class_compares_by_identity : UploadTables.uploadEqIsObjectEq = true := by decide
+
+/-- Under identity the de-duplicating `separate_files` is the value-level `sep` all laws of section 1 are
+    about (every tree, every `files_list` so far). -/
+theorem dedupe_is_by_identity (base : String) (v : PV) (st : List Entry) : sepG uploadEq base v st = sep base v st :=
+  sepG_identity base v st
+
+/-- For ANY `==` of Upload objects: the tree returned does not depend on it, and `files_list` is the
+    left-to-right de-duplication of the Uploads of the tree under that `==`. -/
+theorem files_list_is_dedup_under_eq (eqv : Nat → Nat → Bool) (base : String) (v : PV) :
+    (sepG eqv base v []).1 = nullUploads v ∧
+    ids (sepG eqv base v []).2 = dedupG eqv [] ((upos v).map (·.2)) := by
+  refine ⟨sepG_fst eqv base v [], ?_⟩
+  rw [sepG_snd, ids_collectG]; rfl
+
+/-- For ANY `==` that equates two DIFFERENT Upload objects (in both directions — e.g. equality of
+    filename and content type): whatever the tree, they are never both sent. -/
+theorem equated_uploads_not_both_sent (eqv : Nat → Nat → Bool) (a b : Nat) (hab : eqv a b = true) (hba : eqv b a = true)
+    (hne : a ≠ b) (base : String) (v : PV) :
+    ¬ (a ∈ ids (sepG eqv base v []).2 ∧ b ∈ ids (sepG eqv base v []).2) := by
+  rw [(files_list_is_dedup_under_eq eqv base v).2]
+  exact noEq_not_both eqv a b hab hba hne _ (dedupG_noEq eqv _ [] List.Pairwise.nil)
+
+/-- … so "each distinct Upload is sent once" fails on every tree that holds both. -/
+theorem value_equality_breaks_each_upload_once (eqv : Nat → Nat → Bool) (a b : Nat) (hab : eqv a b = true)
+    (hba : eqv b a = true) (hne : a ≠ b) (base : String) (v : PV) (q q' : Path)
+    (ha : (q, a) ∈ upos v) (hb : (q', b) ∈ upos v) :
+    ids (sepG eqv base v []).2 ≠ firstOcc ((upos v).map (·.2)) := by
+  intro h
+  apply equated_uploads_not_both_sent eqv a b hab hba hne base v
+  rw [h, firstOcc_mem, firstOcc_mem]
+  exact ⟨List.mem_map.mpr ⟨(q, a), ha, rfl⟩, List.mem_map.mpr ⟨(q', b), hb, rfl⟩⟩
+
+/-- two Upload objects compare equal when filename and content type agree (NOT the code: the counter-model) -/
+def sameNameAndType (ups : List UploadObj) (a b : Nat) : Bool :=
+  a == b || match ups[a]?, ups[b]? with
+    | some x, some y => x.filename == y.filename && x.contentType == y.contentType
+    | _, _ => false
+
+def twoPhotos : List UploadObj := [⟨"photo.jpg", "image/jpeg", 0⟩, ⟨"photo.jpg", "image/jpeg", 1⟩]
+def albumVars : PV := .dict [("photos", .list [.upload 0, .upload 1]), ("cover", .upload 0)]
+
+example : ids (sepG (sameNameAndType twoPhotos) "variables" albumVars []).2 = [0] ∧
+    ids (sepG uploadEq "variables" albumVars []).2 = [0, 1] := by decide
+
+/-- `distinct_uploads_both_sent`: on objects, for EVERY heap — whatever the attributes of its Upload objects,
+    identical ones included — two different Upload objects that occur in the variables are both in
+    `files_list`, at different indices, and the file part of each is made of that object's own
+    filename / content / content_type. -/
+theorem distinct_uploads_both_sent (fuel : Nat) (cl : Client) (h : OHeap) (c : HCall) (call : Call)
+    (hc : h.call? fuel c = some call) (u u' : Nat) (hne : u ≠ u') (q q' : Path)
+    (hu : (q, u) ∈ uposKvs (treeOf call.variables)) (hu' : (q', u') ∈ uposKvs (treeOf call.variables)) :
+    (∃ fs, executeO fuel cl h c = .ok cl h (req cl call) fs) ∧
+    ∃ i i' : Nat, i ≠ i' ∧ (ids (entries call))[i]? = some u ∧ (ids (entries call))[i']? = some u' ∧
+      (filesDict h.ups 0 (entries call))[i]? =
+        some (toString i, (h.ups[u]?).map fun (o : UploadObj) => (o.filename, o.stream, o.contentType)) ∧
+      (filesDict h.ups 0 (entries call))[i']? =
+        some (toString i', (h.ups[u']?).map fun (o : UploadObj) => (o.filename, o.stream, o.contentType)) := by
+  refine ⟨⟨_, execute_objects_frame fuel cl h c call hc⟩, ?_⟩
+  have hids : ids (entries call) = firstOcc ((uposKvs (treeOf call.variables)).map (·.2)) := by
+    simp only [entries, processVariables_eq, ids_collect]
+  have hm : u ∈ ids (entries call) := by
+    rw [hids, firstOcc_mem]; exact List.mem_map.mpr ⟨(q, u), hu, rfl⟩
+  have hm' : u' ∈ ids (entries call) := by
+    rw [hids, firstOcc_mem]; exact List.mem_map.mpr ⟨(q', u'), hu', rfl⟩
+  obtain ⟨i, hi⟩ := List.mem_iff_getElem?.mp hm
+  obtain ⟨i', hi'⟩ := List.mem_iff_getElem?.mp hm'
+  have hget : ∀ (n : Nat) (w : Nat), (ids (entries call))[n]? = some w →
+      (filesDict h.ups 0 (entries call))[n]? =
+        some (toString n, (h.ups[w]?).map fun (o : UploadObj) => (o.filename, o.stream, o.contentType)) := by
+    intro n w hn
+    simp only [ids, List.getElem?_map] at hn
+    cases he : (entries call)[n]? with
+    | none => simp [he] at hn
+    | some e =>
+      simp only [he, Option.map_some, Option.some.injEq] at hn
+      subst hn
+      simp [filesDict_get, he]
+  refine ⟨i, i', ?_, hi, hi', hget i u hi, hget i' u' hi'⟩
+  intro e; subst e
+  rw [hi] at hi'; exact hne (Option.some.inj hi')
+
+/-- non-vacuity: two Upload objects with identical attributes and one stream each, in one call -/
+def twinHeap : OHeap :=
+  { hdrs := [], objs := [.dict [("photos", .ref 1), ("cover", .imm (.upload 0))], .list [.imm (.upload 0), .imm (.upload 1)]],
+    ups := twoPhotos }
+
+example : (match executeO 3 sendStep.1 twinHeap sendStep.2 with
+    | .ok _ _ _ fs => fs
+    | .illFormed => []) =
+    [("0", some ("photo.jpg", 0, "image/jpeg")), ("1", some ("photo.jpg", 1, "image/jpeg"))] := by decide
+
 /-! ## 4. the property as written, its two counterexamples, and the proved region -/
 
 /-- The property for one call.  `T` is the variables tree the property speaks about (models stand
@@ -777,6 +1145,18 @@ theorem C11_partial_shared_args (cl : Client) (h : Heap) (c : HCall) (call : Cal
     (hv : validCall call = true) (hs : Supported_11 call) :
     executeH cl h c = .ok cl h (req cl call) ∧ Holds cl call :=
   ⟨execute_args_frame cl h c call hc, C11_partial cl call hv hs⟩
+
+/-- C11 for calls on OBJECTS: outside the two finding triggers every call leaves the client and every
+    list/dict/Upload/headers object of the heap untouched (any aliasing) and sends a request for which the
+    property holds — so the statement carries over to every sequence / schedule of calls sharing objects
+    (`sequence_shared_objects`, `interleave_commutes_shared_objects`). -/
+theorem C11_partial_shared_objects (fuel : Nat) (cl : Client) (h : OHeap) (c : HCall) (call : Call)
+    (hc : h.call? fuel c = some call) (hv : validCall call = true) (hs : Supported_11 call) :
+    executeO fuel cl h c = .ok cl h (req cl call) (filesOfCall h.ups cl call) ∧ Holds cl call :=
+  ⟨execute_objects_frame fuel cl h c call hc, C11_partial cl call hv hs⟩
+
+example : ∃ call, retryHeap.call? 4 sendStep.2 = some call ∧ validCall call = true ∧ Supported_11 call :=
+  ⟨_, rfl, by decide, by decide⟩
 
 /-- non-vacuity: a shared Upload at three paths plus one inside a dumped model, caller headers, timeout -/
 def sampleCall : Call :=
